@@ -16,11 +16,11 @@ import vlib
 SHAPES = [(8, 4), (8, 2), (4, 4), (4, 2), (1, 1)]
 
 
-def emit_plans(ctx, maxlen, out_path):
+def emit_plans(ctx, maxlen, out_path, minlen=1, mode="w"):
     n = 0
-    with open(out_path, "w") as out:
+    with open(out_path, mode) as out:
         for w, u in SHAPES:
-            gen = ctx.cfg("KernelGen.cfg", {"W": w, "U": u, "MaxLen": maxlen}, name="KernelGen_%d_%d.cfg" % (w, u))
+            gen = ctx.cfg("KernelGen.cfg", {"W": w, "U": u, "MinLen": minlen, "MaxLen": maxlen}, name="KernelGen_%d_%d_%d.cfg" % (w, u, minlen))
             seen = set()
 
             def keep(line):
@@ -30,8 +30,8 @@ def emit_plans(ctx, maxlen, out_path):
                         seen.add(js)
                         out.write(js + "\n")
             ctx.tlc("KernelGen", gen, workers=1, timeout=1800, keep_lines=keep, name="KernelGen-%d-%d" % (w, u), count=False)
-            if len(seen) != maxlen:
-                raise vlib.NoVerdict("KernelGen W=%d U=%d emitted %d plans for %d lengths" % (w, u, len(seen), maxlen))
+            if len(seen) != maxlen - minlen + 1:
+                raise vlib.NoVerdict("KernelGen W=%d U=%d emitted %d plans for %d lengths" % (w, u, len(seen), maxlen - minlen + 1))
             n += len(seen)
     return n
 
@@ -99,6 +99,10 @@ def run(ctx):
     # 3. binding G: plans for every length, evaluated against the real kernels
     plans = ctx.path("plans.ndjson")
     np_ = emit_plans(ctx, maxlen, plans)
+    if quick:
+        # a few lengths around the next powers of two as well (wrappers that work in blocks have their seams there)
+        np_ += emit_plans(ctx, 1040, plans, minlen=1020, mode="a")
+        np_ += emit_plans(ctx, 2056, plans, minlen=2040, mode="a")
     ctx.log("TLC emitted %d plans" % np_)
     trace = ctx.path("kern_trace.ndjson")
     ctx.run([kern, "sweep", plans, trace, str(ctx.seed), ctx.tier], timeout=3000)
